@@ -1,9 +1,13 @@
 // C06 correspondence harness: buffers / offset curves of generated valid inputs, fillet counting, parameter handling.
 //   c06 buffer <seed> <n> <outbase>     one GEOSBuffer* / GEOSOffsetCurve / GEOSSingleSidedBuffer call per case
+//   c06 contact <seed> <n> <outbase>    same calls on inputs whose buffer outline touches itself in single noded vertices (c06contact.h)
+//   c06 rings <seed> <n> <outbase>      ring assembly (MaximalEdgeRing / MinimalEdgeRing / PolygonBuilder) called directly on noded lattice arrangements
 //   c06 fillet <seed> <n> <outbase>     raw offset curve of a two-segment line: number of fillet vertices
 //   c06 params <seed> <n> <outbase>     accept/reject + stored / effective parameters through the C API
 //   c06 replay <file>                   re-runs the call of each "B | input | parameters ..." line, prints "case ## expect"
 #include "gridgen.h"
+#include "c06contact.h"
+#include "c06rings.h"
 #include <geos/operation/buffer/BufferParameters.h>
 #include <geos/operation/buffer/OffsetCurve.h>
 #include <geos/algorithm/Angle.h>
@@ -92,7 +96,8 @@ static std::string runCase(GEOSContextHandle_t h, const std::string& tin, const 
         tres = dumpGeom((Geometry*) r);
         if (out) { out->count(std::string("result_") + ((Geometry*) r)->getGeometryType() + (((Geometry*) r)->isEmpty() ? "_empty" : ""));
             size_t n = nCoords((Geometry*) r); out->count(n < 20 ? "result_pts_lt20" : n < 100 ? "result_pts_lt100" : n < 500 ? "result_pts_lt500" : "result_pts_ge500");
-            if (((Geometry*) r)->getGeometryTypeId() == geos::geom::GEOS_POLYGON && ((Polygon*) r)->getNumInteriorRing() > 0) out->count("result_has_holes"); }
+            if (((Geometry*) r)->getGeometryTypeId() == geos::geom::GEOS_POLYGON && ((Polygon*) r)->getNumInteriorRing() > 0) out->count("result_has_holes");
+            if (ringContacts((Geometry*) r) > 0) out->count("result_outline_touches_itself"); }
         GEOSGeom_destroy_r(h, r); }
     return "B | " + tin + " | " + parTok(p) + " | " + st + " | " + tres; }
 
@@ -197,6 +202,70 @@ int main(int argc, char** argv) {
             if (th == 0.0) out.count("axis_parallel");
             if (line.size() > 400000) { out.count("skipped_big"); continue; }
             out.emit(line, "ok");
+        }
+    }
+    else if (stream == "contact") {
+        // every case: an input whose buffer outline touches itself in single vertices for the distance chosen (families T and L of
+        // c06contact.h); same calls and the same case lines as stream `buffer`
+        GridGen gen(r, h, &out);
+        for (long i = 0; i < n; i++) {
+            gen.span = r.chance(60) ? 6 : (r.chance(50) ? 3 : 12);
+            gen.setPartner(GGeom{}, 0);
+            Par p; p.mode = "buf"; std::string tin; double size = 1, rel = 1; bool famT = r.chance(45);
+            if (famT) {
+                GGeom A; if (!touchingRings(gen, r, A, &out)) { out.count("touch_generation_failed"); continue; }
+                // arbitrary-double similarity (the shared vertices stay bit-identical: they are the same lattice point)
+                DX t; double mag = std::pow(10.0, r.range(-3, 5) + r.unit()); double th = r.chance(30) ? 0.0 : r.unit() * 6.283185307179586;
+                t.a = mag * std::cos(th); t.b = -mag * std::sin(th); t.c = mag * std::sin(th); t.d = mag * std::cos(th);
+                if (th == 0.0) { t.b = 0; t.c = 0; out.count("axis_parallel"); }
+                double off = r.chance(35) ? 0.0 : mag * std::pow(10.0, r.range(0, 3)); t.tx = off * (r.unit() - 0.5) * 2; t.ty = off * (r.unit() - 0.5) * 2;
+                tin = geomTokD(A, t);
+                long x0, y0, x1, y1; bboxOf(A.elems[0].rings[0], x0, y0, x1, y1); size = mag * (double) std::max(x1 - x0, y1 - y0);
+                int k = (int) r.below(100);
+                if (k < 60) p.d = 0.0;
+                else { rel = std::pow(10.0, r.range(-5, -2) + r.unit()); p.d = (k < 80 ? 1 : -1) * size * rel; }
+                out.count("family_touching_rings"); }
+            else {
+                long m2 = 1; GGeom A = latticeExact(gen, r, m2, &out);
+                Xform t; t.sym = (int) r.below(8); if (r.chance(50)) { t.tx = r.range(-1000, 1000); t.ty = r.range(-1000, 1000); } t.k = r.chance(50) ? 0 : r.range(-10, 10);
+                tin = GridGen::geomTok(A, t);
+                p.d = std::ldexp((double) m2 / 2.0, t.k);
+                bool hasPoly = false; for (auto& e : A.elems) if (e.kind == 2 && !e.empty) hasPoly = true;
+                if (hasPoly && r.chance(35)) p.d = -p.d;
+                out.count("family_lattice_exact"); }
+            std::unique_ptr<Geometry> g;
+            try { g = buildGeom(tin, gf); } catch (...) { out.count("build_rejected"); continue; }
+            if (GEOSisValid_r(h, (GEOSGeometry*) g.get()) != 1) { out.count("invalid_skipped"); continue; }
+            if (g->isEmpty()) { out.count("empty_skipped"); continue; }
+            { int k = (int) r.below(100); p.q = k < 40 ? 8 : k < 90 ? r.range(1, 32) : r.range(1, 5); }
+            p.api = (int) r.below(3);
+            if (p.api > 0) { p.cap = r.chance(70) ? 1 : r.range(1, 3); p.join = r.chance(70) ? 1 : r.range(2, 3); p.mitre = pick(r, {5.0, 1.0, 2.0, 10.0}); }
+            { FILE* cf = std::fopen((std::string(argv[4]) + ".current").c_str(), "w"); if (cf) { std::fprintf(cf, "B | %s | %s\n", tin.c_str(), parTok(p).c_str()); std::fclose(cf); } }
+            std::string line = runCase(h, tin, g.get(), p, &out);
+            out.count(std::string("in_") + g->getGeometryType());
+            out.count(p.d > 0 ? "d_positive" : p.d < 0 ? "d_negative" : "d_zero");
+            out.count(p.q <= 5 ? "q_1..5" : p.q <= 7 ? "q_6..7" : p.q == 8 ? "q_8" : "q_9..32");
+            if (p.api > 0) { out.count("cap_" + std::to_string(p.cap)); out.count("join_" + std::to_string(p.join)); }
+            if (line.size() > 400000) { out.count("skipped_big"); continue; }
+            out.emit(line, "ok");
+        }
+    }
+    else if (stream == "rings") {
+        GridGen gen(r, h, &out);
+        for (long i = 0; i < n; i++) {
+            gen.span = r.chance(60) ? 6 : (r.chance(50) ? 3 : 12);
+            gen.setPartner(GGeom{}, 0);
+            GGeom A; int k = (int) r.below(100);
+            if (k < 60) { if (!touchingRings(gen, r, A, &out)) { out.count("touch_generation_failed"); continue; } out.count("arr_touching_rings"); }
+            else if (k < 85) { A = gen.geom(2, false, false); out.count("arr_grid_polygons"); }
+            else { A = gen.nestedFrames(); out.count("arr_nested_frames"); }
+            if (!gen.valid(A)) { out.count("invalid_skipped"); continue; }
+            int cut = (int) r.below(3); out.count("cut_" + std::to_string(cut));
+            auto es = nodedEdges(A, cut, r, &out);
+            if (es.empty()) { out.count("empty_skipped"); continue; }
+            out.count(es.size() < 8 ? "edges_lt8" : es.size() < 20 ? "edges_lt20" : "edges_ge20");
+            // the arrangement itself travels along (part `T ...`, ignored by the model) so that the check can replay it as buffer(input, 0)
+            out.emit(edgesTok(es) + " | T " + GridGen::geomTok(A, Xform{}), ringsDirect(es, gf, &out) + " | " + ringsBuilder(es, gf, &out));
         }
     }
     else if (stream == "fillet") {
